@@ -166,6 +166,36 @@ def drv_fault(scn, seed, plan, fault_mode):
     return tr
 
 
+def drv_hooks(seed, combo, local, fail_teardown):
+    rng = random.Random(seed)
+    scn = scenario.gen(rng, n_min=2, n_max=5, groups_max=1, allow_time=False)
+    scn["hooks"] = {k: bool(combo >> i & 1) for i, k in enumerate(("setup", "teardown", "nsetup", "nteardown"))}
+    scn["hook_rc"] = {"teardown": 1} if fail_teardown else {}
+    if local:
+        scn["mode"] = "local"
+    tr = run.run_hpc(scn, seed)
+    tr["driver"] = ["scn", scn, seed]
+    return tr
+
+
+def drv_cancel(scn, seed, t, after):
+    plan = [{"kind": "usertry", "t": t, "argv": ["cancel-jobs", "{out}"], "host": "login"}]
+    tr = run.run_fault(scn, seed, plan, after=after)
+    tr["driver"] = ["cancel", scn, seed, t, after]
+    return tr
+
+
+def drv_random_cancel(seed, gen_kw):
+    rng = random.Random(seed)
+    scn = scenario.gen(rng, **gen_kw)
+    scn["maxnodes"] = rng.choice([1, 1, 2, 2, 3])
+    base = run.run_fault(scn, seed, None)
+    t = rng.randrange(1, max(2, len(base["moves"])))
+    cmds = [["try-submit-jobs", "{out}"], ["show-status", "-o", "{out}", "-n"]]
+    after = [cmds[rng.randrange(2)] for _ in range(rng.randint(0, 3))]
+    return drv_cancel(scn, seed, t, after)
+
+
 def drv_random_nodefaults(seed, gen_kw):
     """Random scenario with failed sbatch calls for a random subset of batches and a node killed at a random point."""
     rng = random.Random(seed)
@@ -185,7 +215,7 @@ def drv_random_nodefaults(seed, gen_kw):
     return tr
 
 
-DRIVERS = {"fault": drv_fault, "random_nodefaults": drv_random_nodefaults, "cluster": drv_cluster, "results": drv_results, "random_hpc": drv_random_hpc, "scn": drv_scn, "model_replay": drv_model_replay,
+DRIVERS = {"hooks": drv_hooks, "cancel": drv_cancel, "random_cancel": drv_random_cancel, "fault": drv_fault, "random_nodefaults": drv_random_nodefaults, "cluster": drv_cluster, "results": drv_results, "random_hpc": drv_random_hpc, "scn": drv_scn, "model_replay": drv_model_replay,
            "batching_input": drv_batching_input, "dry_pair": drv_dry_pair, "first_round": drv_first_round}
 
 
@@ -700,7 +730,7 @@ def check_C11(ctx):
     # failed scheduler queries and failed sbatch calls
     kw = dict(n_min=3, n_max=6, groups_max=1, squeue_faults=1.0)
     ctx.judge(run_tasks([("random_hpc", (s, kw)) for s in seeds(ctx, 150 if q else 2000, 31)]), "random submissions with a failed scheduler query")
-    return ctx.finish(rule="systematic sweep: base schedules x every submitter process x every boundary operation (thorough/"
+    return ctx.finish(level="fault_enumeration", rule="systematic sweep: base schedules x every submitter process x every boundary operation (thorough/"
                            "fault mode: every file mutation under the output directory) x {SIGKILL, failed lock acquisition, "
                            "failed write (EDQUOT)} x lock-library policy {never break, break stale/malformed markers}, each "
                            "followed by the remaining nodes' own rounds and up to 3 user try-submit-jobs; plus random "
@@ -750,13 +780,51 @@ def check_C12(ctx):
     tasks += [("random_nodefaults", (s, kw)) for s in seeds(ctx, 200 if q else 3000, 41)]
     traces = run_tasks(tasks + t2)
     ctx.judge(bl + traces, "failed sbatch subsets, node kills at every runner operation, dependency cycles, random node faults; recovery")
-    return ctx.finish(rule="every subset (<=3) of batches failing at sbatch on the base scenarios; a node killed at every boundary "
+    return ctx.finish(level="fault_enumeration", rule="every subset (<=3) of batches failing at sbatch on the base scenarios; a node killed at every boundary "
                            "operation of every runner (2+ schedules per base); dependency cycles; random DAGs with random failed "
                            "sbatch calls and a node kill at a random point; each followed by the documented try-submit-jobs "
                            "recovery and judged at results.json")
 
 
-CHECKS = {"C01": check_C01, "C07": check_C07, "C08": check_C08, "C10": check_C10, "C11": check_C11, "C12": check_C12}
+def check_C14(ctx):
+    q = ctx.tier == "quick"
+    bases = [
+        families.scn("ABCD", groups=[families.G(size=1, procs=1)], maxnodes=2),
+        families.scn("ABCD", blk={"B": ["A"], "D": ["C"]}, groups=[families.G(size=1, procs=1)], maxnodes=2),
+        families.scn("ABC", blk={"C": ["A"]}, groups=[families.G(size=2, tryadd=False, procs=2)], maxnodes=1),
+    ]
+    base_tasks = [("fault", (b, ctx.seed + i, None, False)) for i, b in enumerate(bases)]
+    bl = run_tasks(base_tasks)
+    tasks = []
+    afters = [[], [["try-submit-jobs", "{out}"]], [["show-status", "-o", "{out}", "-n"], ["try-submit-jobs", "{out}"]]]
+    for i, (b, btr) in enumerate(zip(bases, bl)):
+        for t in range(1, len(btr["moves"]) + 1, 1 if not q else 2):     # cancel issued at every scheduling step
+            for a in (afters if not q else afters[:2]):
+                tasks.append(("cancel", (b, ctx.seed + i, t, a)))
+    ctx.extra["cancel_moments_enumerated"] = len(tasks)
+    tasks += [("random_cancel", (s, dict(n_min=3, n_max=7, groups_max=1))) for s in seeds(ctx, 150 if q else 2500, 51)]
+    ctx.judge(bl + run_tasks(tasks), "cancel-jobs issued at every scheduling step of base schedules and at random moments of random "
+              "submissions, followed by try-submit-jobs / show-status sequences")
+    return ctx.finish(rule="cancel-jobs at every scheduling step of 3 base schedules (batches queued / running / some finished / jobs "
+                           "unsubmitted because of max-nodes or dependencies) x follow-up command sequences; random DAGs with the "
+                           "cancel at a random moment and 0-3 random follow-up commands")
+
+
+def check_C16(ctx):
+    q = ctx.tier == "quick"
+    tasks = []
+    n = 3 if q else 30
+    for combo in range(16):
+        for local in (False, True):
+            for k in range(n):
+                tasks.append(("hooks", (ctx.seed * 1000 + combo * 64 + k * 2 + int(local), combo, local, k % 3 == 1)))
+    ctx.judge(run_tasks(tasks), "all 16 set/unset combinations of the four lifecycle commands, local and HPC mode, random DAGs")
+    return ctx.finish(rule="16 combinations of setup/teardown/node-setup/node-teardown commands x {local, HPC} x random DAGs (2-5 jobs, "
+                           "passing and failing jobs, failing teardown command in a third of the runs) x random schedules; hook "
+                           "commands are served by the controller and recorded with their environment")
+
+
+CHECKS = {"C16": check_C16, "C14": check_C14, "C01": check_C01, "C07": check_C07, "C08": check_C08, "C10": check_C10, "C11": check_C11, "C12": check_C12}
 for _i, _p in enumerate(["C02", "C03", "C04", "C05", "C09"]):
     CHECKS[_p] = make_protocol_check(10 + _i)
 # C06 also under failing scheduler queries: the limit is stated for every instant, not only for fault-free runs
